@@ -197,8 +197,8 @@ impl Prop for C02 {
             1 => ((0u32..64).prop_map(|k| 1usize << k), 0usize..200),
             1 => (1usize..100_000_000, 0usize..2000),
         ];
-        let cluster_max = tier.pick(160_000u32, 400_000u32);
-        let big = (big_n, proptest::collection::vec(any::<u64>(), 0..8), any::<bool>(), any::<bool>(), proptest::collection::vec((0u8..64, any::<u64>(), any::<bool>()), 0..6), proptest::collection::vec(any::<u64>(), 0..300), prop_oneof![20 => 0u32..70, 3 => 70u32..5000, 1 => 90_000u32..cluster_max])
+        let cluster_max = tier.pick(320_000u32, 600_000u32);
+        let big = (big_n, proptest::collection::vec(any::<u64>(), 0..8), any::<bool>(), any::<bool>(), proptest::collection::vec((0u8..64, any::<u64>(), any::<bool>()), 0..6), proptest::collection::vec(any::<u64>(), 0..300), prop_oneof![40 => 0u32..70, 6 => 70u32..5000, 3 => 90_000u32..cluster_max])
             .prop_map(|((n, m), run_starts, first, last, edges, raw, run_len)| {
                 let mut raw = raw;
                 raw.truncate(m.max(1));
@@ -280,6 +280,7 @@ impl Prop for C02 {
         let nruns = runs_of(&model.ones).len();
         rep.class_if(nruns > 16, ">16-one-runs");
         rep.class_if(m >= 90_000, "m>=90000(long high superblocks possible)");
+        rep.class_if(m >= 250_000, "m>=250000(several long high superblocks possible)");
         rep.class_if(n <= 3000, "plan:all-arguments");
         rep.class(&format!("high-len-bits~{}", bit_len(((n >> w.min(63)) + m) as u64)));
         if m >= 1 && m < n {
@@ -294,7 +295,7 @@ impl Prop for C02 {
         if widths < need {
             return Err(format!("only {} distinct low widths reached (need {})", widths, need));
         }
-        for c in ["m=0", "m=n", "n>=2^63", ">16-one-runs", "m>=90000(long high superblocks possible)"] {
+        for c in ["m=0", "m=n", "n>=2^63", ">16-one-runs", "m>=90000(long high superblocks possible)", "m>=250000(several long high superblocks possible)"] {
             if classes.get(c).copied().unwrap_or(0) == 0 {
                 return Err(format!("no generated case reached class {}", c));
             }
